@@ -288,6 +288,11 @@ func evalC18(c *core.Ctx, cs c18Case, id string) Outcome {
 			if _, ok := after[rel]; !ok {
 				return mk(i, "init-exit-0-without-file", "", "the file is written", "exit 0 but no file at "+rel)
 			}
+			// mockery has to be able to load the file back: whoever ran init must be able to read
+			// it (the checks run as root, for whom permission bits do not count — look at them)
+			if m := after[rel].Mode; m&0o400 == 0 {
+				return mk(i, "init-output-not-readable-by-its-owner", "", "a configuration file its owner can read (mockery must accept it)", fmt.Sprintf("mode %04o", m))
+			}
 			written[rel] = op.Pkg
 			hasWritten[rel] = true
 			// independent parse: exactly one package key, byte-identical to the argument
